@@ -101,11 +101,13 @@ TLoad ==
        /\ rootBad' = ~EpNormalised(p)
        /\ Obs(ev, p, <<Entry(p, ev)>>)
 
+Int8(x) == ((x + 128) % 256) - 128
 \* successor comparison, field by field, with the known-finding classification of the int8 clock
 SuccOK(ev, want) ==
   LET got == PosOfJson(ev.pos)
       others == got.bd = want.bd /\ got.stm = want.stm /\ got.cr = want.cr /\ got.ep = want.ep /\ got.fm = want.fm
-      class == IF others /\ want.hm >= 128 /\ got.hm = want.hm - 256 THEN "clock/int8-wrap" ELSE ""
+      \* known finding F5: the clock is kept in 8 signed bits
+      class == IF others /\ want.hm >= 128 /\ got.hm = Int8(want.hm) THEN "clock/int8-wrap" ELSE ""
   IN /\ Expect(got.bd = want.bd, ev, "C02/placement", "", [want |-> FenOf(want), got |-> FenOf(got)])
      /\ Expect(got.stm = want.stm, ev, "C02/side-to-move", "", [want |-> want.stm, got |-> got.stm])
      /\ Expect(got.cr = want.cr, ev, "C02/castling-rights", "", [want |-> FenOf(want), got |-> FenOf(got)])
@@ -190,7 +192,7 @@ TUciPosition ==
        /\ Expect(FenOf(root) = ev.fen, ev, "INFRA/fen-projection", "", [fen |-> ev.fen])
        /\ Expect(Valid(root) /\ LinePlayable(root, ev.moves, 1), ev, "INFRA/uci-line", "", [fen |-> ev.fen])
        /\ LET want == Play(root, ev.moves, 1) IN
-            Expect(ev.fenOut = FenOf(want), ev, "C02/uci-position", IF want.hm >= 128 /\ ev.fenOut = FenOf([want EXCEPT !.hm = want.hm - 256]) THEN "clock/int8-wrap" ELSE "", [want |-> FenOf(want), got |-> ev.fenOut])
+            Expect(ev.fenOut = FenOf(want), ev, "C02/uci-position", IF want.hm >= 128 /\ ev.fenOut = FenOf([want EXCEPT !.hm = Int8(want.hm)]) THEN "clock/int8-wrap" ELSE "", [want |-> FenOf(want), got |-> ev.fenOut])
   /\ UNCHANGED <<gvars, rootBad>>
 
 \* UCI: position + `go depth 1`; a root with legal moves and clock < 100 is answered `bestmove 0000`
